@@ -393,10 +393,14 @@ def closure_underscore(toks, log):
 
 def subst_tokens(toks, pat, rep, log, rule='S'):
     """Replace every occurrence of the token sequence `pat` (text) by `rep` (text).
-    Matching ignores whitespace/comments between tokens."""
+    Matching ignores whitespace/comments between tokens. A pattern token `__E1` .. `__E9` is a metavariable: it matches the
+    (non-empty) balanced token sequence up to the next pattern token at nesting depth 0, and `rep` may mention it."""
     ptoks = [t.text for t in lex(pat) if t.kind not in ('ws', 'comment')]
     if not ptoks:
         return toks, 0
+    meta = re.compile(r'^__E[1-9]$')
+    if meta.match(ptoks[0]) or meta.match(ptoks[-1]):
+        raise LostAnchor('subst pattern `%s`: a metavariable cannot be the first or last token' % pat)
     out = []
     k = 0
     count = 0
@@ -407,17 +411,58 @@ def subst_tokens(toks, pat, rep, log, rule='S'):
             j = k
             ok = True
             last = k
-            for pi, pt in enumerate(ptoks):
+            binds = {}
+            pi = 0
+            while pi < len(ptoks):
+                pt = ptoks[pi]
                 if pi > 0:
                     j = _next_sig(toks, j)
-                if j >= n or toks[j].text != pt or toks[j].kind in ('ws', 'comment'):
+                if j >= n:
+                    ok = False
+                    break
+                if meta.match(pt):
+                    stop = ptoks[pi + 1]
+                    depth = 0
+                    start = j
+                    e = j
+                    found = False
+                    while e < n:
+                        te = toks[e]
+                        if te.kind not in ('ws', 'comment'):
+                            if depth == 0 and te.text == stop and e > start:
+                                found = True
+                                break
+                            if te.text in OPEN:
+                                depth += 1
+                            elif te.text in CLOSE:
+                                depth -= 1
+                                if depth < 0:
+                                    break
+                        e += 1
+                    if not found:
+                        ok = False
+                        break
+                    binds[pt] = text(toks[start:e]).strip()
+                    # position j on the last token of the bound sequence so that the next step lands on `stop`
+                    q = e - 1
+                    while q > start and toks[q].kind in ('ws', 'comment'):
+                        q -= 1
+                    j = q
+                    last = j
+                    pi += 1
+                    continue
+                if toks[j].text != pt or toks[j].kind in ('ws', 'comment'):
                     ok = False
                     break
                 last = j
+                pi += 1
             if ok:
                 # identifier boundary safety: token-level so `foo` never matches `foobar`
                 nl = text(toks[k:last + 1]).count('\n')
-                out.append(Tok('subst', rep + ('\n' * nl), t.pos, t.line))
+                r2 = rep
+                for mv, val in binds.items():
+                    r2 = r2.replace(mv, val)
+                out.append(Tok('subst', r2 + ('\n' * nl), t.pos, t.line))
                 log.append((rule, '%s => %s' % (pat, rep), t.line))
                 count += 1
                 k = last + 1
